@@ -168,13 +168,18 @@ func (x *Exec) Verify(fn *ssa.Function, ct *Contract) (rep *FuncReport) {
 			}
 			x.topLets[cl.Name] = sv
 		}
-		for _, cl := range ct.Of("requires") {
-			sv, err := EvalSpec(cl.node, env, x.sigs, x.topLets)
-			if err != nil {
-				x.fail("requires %s: %v", cl.Tag, err)
-				break
+		for _, kind := range []string{"requires", "assumes"} {
+			for _, cl := range ct.Of(kind) {
+				sv, err := EvalSpec(cl.node, env, x.sigs, x.topLets)
+				if err != nil {
+					x.fail("%s %s: %v", kind, cl.Tag, err)
+					break
+				}
+				st.Assume(sv.T)
+				if kind == "assumes" {
+					x.assumed["assumption of "+ct.Func+": "+cl.Text] = true
+				}
 			}
-			st.Assume(sv.T)
 		}
 		// vacuity: the precondition must be satisfiable
 		x.obls = append(x.obls, &Obligation{Name: fmt.Sprintf("%s.%s.vacuity.requires_sat", x.prop, x.topShort()), Func: x.topKey(), Kind: "vacuity", Clause: "requires clauses are satisfiable (must be sat)", Assume: append([]string(nil), st.pc...), Goal: "false"})
